@@ -241,58 +241,110 @@ Proof.
            (memb (bs "RSA3072SHA384") l), (memb (bs "ECDSAP256SHA256") l), (memb (bs "ECDSAP384SHA384") l); reflexivity.
 Qed.
 
-(** * the generated policy *)
-(** an optional one-byte hex parameter: not set (the documented default) or a hex string below 0x100 *)
-Definition byte_given (dflt : Z) (str : list Z) (v : Z) : Prop :=
-  (str = [] /\ v = dflt) \/ (hex_denotes str v /\ 0 <= v < 256).
+(** * the documented forms of a hex value *)
+(** [hex_form l v]: [l] is a hex string for [v] (any case, leading zeros), bare or with one
+    "0x" / "0X" in front (the form of the shipped lcp.json and of README.md) *)
+Definition hex_form (l : list Z) (v : Z) : Prop :=
+  exists d, hex_denotes d v /\ (l = d \/ l = bs "0x" ++ d \/ l = bs "0X" ++ d).
 
-Lemma opt_hex_given dflt str v : byte_given dflt str v -> opt_hex dflt str = Some v.
+(* a string of hex digits does not begin with "0x" / "0X" *)
+Lemma hex_denotes_no_prefix d v x : hex_denotes d v -> hex_digit x = None -> has_prefix [48; x] d = false.
 Proof.
-  intros [[-> ->] | [H Hr]]; [reflexivity|].
-  pose proof (hex_denotes_fold _ _ H) as (_ & _ & Hn).
-  unfold opt_hex. destruct str; [congruence|]. apply parse_hex_denotes; [assumption | unfold W64; lia].
+  intros H Hx. apply hex_denotes_fold in H. destruct H as (Hf & _ & _).
+  destruct d as [|a [|b t]]; cbn [has_prefix]; try reflexivity; [apply andb_false_r|].
+  destruct (48 =? a) eqn:Ea; [|reflexivity]. destruct (x =? b) eqn:Eb; [|reflexivity].
+  apply Z.eqb_eq in Ea. apply Z.eqb_eq in Eb. subst a b.
+  cbn [hex_fold] in Hf. change (hex_digit 48) with (Some 0) in Hf. cbn beta iota in Hf. rewrite Hx in Hf. discriminate.
 Qed.
+
+Lemma trim_none d v : hex_denotes d v ->
+  trim_prefix (bs "0X") (trim_prefix (bs "0x") d) = d.
+Proof.
+  intros H. unfold trim_prefix. change (bs "0x") with [48; 120]. change (bs "0X") with [48; 88].
+  rewrite (hex_denotes_no_prefix d v 120 H eq_refl), (hex_denotes_no_prefix d v 88 H eq_refl). reflexivity.
+Qed.
+
+Lemma cfg_hex_form l v : hex_form l v -> v < W64 -> cfg_hex l = Some v.
+Proof.
+  intros (d & Hd & [-> | [-> | ->]]) Hv; unfold cfg_hex.
+  - rewrite (trim_none d v Hd). apply parse_hex_denotes; assumption.
+  - replace (trim_prefix (bs "0x") (bs "0x" ++ d)) with d.
+    + unfold trim_prefix. change (bs "0X") with [48; 88].
+      rewrite (hex_denotes_no_prefix d v 88 Hd eq_refl). apply parse_hex_denotes; assumption.
+    + unfold trim_prefix. change (bs "0x") with [48; 120]. cbn [has_prefix app]. rewrite !Z.eqb_refl. reflexivity.
+  - replace (trim_prefix (bs "0x") (bs "0X" ++ d)) with (bs "0X" ++ d) by reflexivity.
+    unfold trim_prefix. change (bs "0X") with [48; 88]. cbn [has_prefix app]. rewrite !Z.eqb_refl.
+    cbn [andb Datatypes.length skipn]. apply parse_hex_denotes; assumption.
+Qed.
+
+Lemma hex_form_nonempty l v : hex_form l v -> l <> [].
+Proof.
+  intros (d & Hd & H). apply hex_denotes_fold in Hd. destruct Hd as (_ & _ & Hn).
+  destruct H as [-> | [-> | ->]]; [assumption | discriminate | discriminate].
+Qed.
+
+(** * the generated policy *)
+(** an optional hex parameter: not set (the documented default) or a hex form within [lo, hi] *)
+Definition hex_given (dflt lo hi : Z) (str : list Z) (v : Z) : Prop :=
+  (str = [] /\ v = dflt) \/ (hex_form str v /\ lo <= v <= hi).
+
+Lemma opt_hex_given dflt lo hi str v : hi < W64 -> hex_given dflt lo hi str v -> opt_hex dflt str = Some v.
+Proof.
+  intros Hhi [[-> ->] | [H Hr]]; [reflexivity|].
+  pose proof (hex_form_nonempty _ _ H) as Hn.
+  unfold opt_hex. destruct str; [congruence|]. apply cfg_hex_form; [assumption | lia].
+Qed.
+
+Lemma hex_given_range dflt lo hi str v : lo <= dflt <= hi -> hex_given dflt lo hi str v -> lo <= v <= hi.
+Proof. intros Hd [[_ ->] | [_ H]]; assumption. Qed.
 
 Definition cfg_hash_names : list (list Z * Z) := [(bs "SHA1", AlgSHA1); (bs "SHA256", AlgSHA256); (bs "SHA384", AlgSHA384)].
 Definition cfg_ptype_names : list (list Z * Z) := [(bs "Any", 1); (bs "List", 0)].
 
+(** the placeholder digest: 00 01 .. for the length of a digest of the algorithm, zero padded
+    (SHA384: the 32 bytes the field holds) *)
+Definition cfg_spec_hash (alg : Z) : list Z :=
+  if alg =? AlgSHA1 then seqZ 0 20 ++ repeat 0 12%nat else seqZ 0 32.
+
 (** the policy the documentation of the config promises for these parameters *)
 Definition config_spec_policy (ver alg pt sinit maxsinit : Z) (lpc lah las : list (list Z)) : policy2 :=
   MkP2 ver alg pt sinit (repeat 0 8%nat) (decon_pc (pc_flags lpc)) maxsinit 255
-       (decon_ah (ah_flags lah)) (decon_as (as_flags las)) 8 (seqZ 0 32).
+       (decon_ah (ah_flags lah)) (decon_as (as_flags las)) 8 (cfg_spec_hash alg).
 
 Definition config_states (c : config) (ver alg pt sinit maxsinit : Z) (lpc lah las : list (list Z)) : Prop :=
-  hex_denotes (c_version c) ver /\ 768 <= ver <= 774 /\
+  hex_given 768 768 774 (c_version c) ver /\
   In (c_hashalg c, alg) cfg_hash_names /\ In (c_ptype c, pt) cfg_ptype_names /\
-  byte_given 0 (c_sinit c) sinit /\ byte_given 255 (c_maxsinit c) maxsinit /\
+  hex_given 0 0 255 (c_sinit c) sinit /\ hex_given 255 0 255 (c_maxsinit c) maxsinit /\
   name_list cfg_pc_names lpc (c_pc c) /\ name_list cfg_ah_names lah (c_hmask c) /\
   name_list cfg_as_names las (c_smask c).
 
-Lemma wrap8_small v : 0 <= v < 256 -> wrap8 v = v.
+Lemma wrap8_small v : 0 <= v <= 255 -> wrap8 v = v.
 Proof. intros H. rewrite wrap8_mod. apply Z.mod_small. unfold W8. lia. Qed.
 
-Lemma byte_given_range dflt str v : 0 <= dflt < 256 -> byte_given dflt str v -> 0 <= v < 256.
-Proof. intros Hd [[_ ->] | [_ H]]; assumption. Qed.
+Ltac cfg_fields := cbn [c_version c_hashalg c_ptype c_sinit c_maxsinit c_pc c_hmask c_smask].
 
 Lemma config_characterised c ver alg pt sinit maxsinit lpc lah las :
   config_states c ver alg pt sinit maxsinit lpc lah las ->
   load_config c = Ok (config_spec_policy ver alg pt sinit maxsinit lpc lah las).
 Proof.
-  destruct c as [sv sh st ss sm spc shm ssm]. unfold config_states. cbn [c_version c_hashalg c_ptype c_sinit c_maxsinit c_pc c_hmask c_smask].
-  intros (Hv & Hr & Hh & Ht & Hs & Hm & Hpc & Hah & Has).
-  unfold load_config. cbn [c_version c_hashalg c_ptype c_sinit c_maxsinit c_pc c_hmask c_smask].
-  rewrite (parse_hex_denotes _ _ Hv) by (unfold W64; lia).
+  destruct c as [sv sh st ss sm spc shm ssm]. unfold config_states. cfg_fields.
+  intros (Hv & Hh & Ht & Hs & Hm & Hpc & Hah & Has).
+  unfold load_config. cfg_fields. unfold LCPPolicyVersion3.
+  assert (H64 : forall hi, hi <= 774 -> hi < W64) by (unfold W64; lia).
+  rewrite (opt_hex_given 768 768 774 sv ver (H64 774 ltac:(lia)) Hv).
+  apply hex_given_range in Hv; [| lia].
   assert (Hw : wrap16 ver = ver) by (rewrite wrap16_mod; apply Z.mod_small; unfold W16; lia).
   rewrite Hw. replace ((ver <? 768) || (774 <? ver)) with false by lia.
-  assert (Hha : cfg_hash_alg sh = Some alg).
+  assert (Hha : cfg_hash_alg sh = Some alg /\ cfg_hash alg = cfg_spec_hash alg).
   { unfold cfg_hash_names in Hh. cbn [In] in Hh.
-    destruct Hh as [E | [E | [E | []]]]; injection E as <- <-; reflexivity. }
-  rewrite Hha.
+    destruct Hh as [E | [E | [E | []]]]; injection E as <- <-; split; reflexivity. }
+  destruct Hha as [Hha Hhash]. rewrite Hha.
   assert (Hpt : cfg_ptype st = Some pt).
   { unfold cfg_ptype_names in Ht. cbn [In] in Ht. destruct Ht as [E | [E | []]]; injection E as <- <-; reflexivity. }
-  rewrite Hpt, (opt_hex_given _ _ _ Hs), (opt_hex_given _ _ _ Hm).
-  rewrite (pc_word _ _ Hpc), (ah_word _ _ Hah), (as_word _ _ Has).
-  rewrite !wrap8_small by (eapply byte_given_range; [| eassumption]; lia).
+  rewrite Hpt.
+  rewrite (opt_hex_given 0 0 255 ss sinit (H64 255 ltac:(lia)) Hs), (opt_hex_given 255 0 255 sm maxsinit (H64 255 ltac:(lia)) Hm).
+  rewrite (pc_word _ _ Hpc), (ah_word _ _ Hah), (as_word _ _ Has), Hhash.
+  rewrite !wrap8_small by (eapply hex_given_range; [| eassumption]; lia).
   reflexivity.
 Qed.
 
@@ -307,18 +359,47 @@ Proof.
   unfold config_spec_policy; p2_fields. rewrite flags_pc, flags_ah, flags_as. repeat split; reflexivity.
 Qed.
 
+(** * the documented forms of the version *)
+Definition set_version (c : config) (v : list Z) : config :=
+  MkCfg v (c_hashalg c) (c_ptype c) (c_sinit c) (c_maxsinit c) (c_pc c) (c_hmask c) (c_smask c).
+
+(** whatever else the config says (also outside the documentation): a version written as the
+    hex digits [d], as "0x"+[d] or as "0X"+[d] gives the same result, and a version that is not
+    set gives the same result as "300" *)
+Lemma config_version_forms c d v : hex_denotes d v -> v < W64 ->
+  load_config (set_version c (bs "0x" ++ d)) = load_config (set_version c d) /\
+  load_config (set_version c (bs "0X" ++ d)) = load_config (set_version c d) /\
+  load_config (set_version c []) = load_config (set_version c (bs "300")).
+Proof.
+  intros Hd Hv.
+  assert (E : forall l, hex_form l v -> opt_hex LCPPolicyVersion3 l = Some v).
+  { intros l Hl. pose proof (hex_form_nonempty _ _ Hl). unfold opt_hex. destruct l; [congruence|]. apply cfg_hex_form; assumption. }
+  unfold load_config, set_version. cfg_fields.
+  rewrite (E d), (E (bs "0x" ++ d)), (E (bs "0X" ++ d)) by (exists d; tauto).
+  repeat split; reflexivity.
+Qed.
+
+(** what is not a hex value stays refused *)
+Lemma config_version_malformed_refused c :
+  In (c_version c) [bs "0x"; bs "0X"; bs "0x0x302"; bs "0X0x302"; bs "x302"; bs "0x3g2"; bs "302h"; bs "-302"; bs "+302"; bs " 302"; bs "3_02"] ->
+  load_config c = Err E_STRCONV.
+Proof.
+  intros H. unfold load_config. cbn [In] in H.
+  repeat (destruct H as [<- | H]; [reflexivity|]). destruct H.
+Qed.
+
 (** * serialise and parse back the generated policy *)
 Lemma config_spec_in_range c ver alg pt sinit maxsinit lpc lah las :
   config_states c ver alg pt sinit maxsinit lpc lah las ->
   in_range2 (config_spec_policy ver alg pt sinit maxsinit lpc lah las) /\ LCPPolicyVersion3 <= ver /\
   (alg = AlgSHA1 \/ alg = AlgSHA256 \/ alg = AlgSHA384).
 Proof.
-  intros (Hv & Hr & Hh & Ht & Hs & Hm & _).
+  intros (Hv & Hh & Ht & Hs & Hm & _).
   assert (Ha : alg = AlgSHA1 \/ alg = AlgSHA256 \/ alg = AlgSHA384).
   { unfold cfg_hash_names in Hh. cbn [In] in Hh. destruct Hh as [E | [E | [E | []]]]; injection E as _ <-; tauto. }
   assert (Hp : pt = 1 \/ pt = 0).
   { unfold cfg_ptype_names in Ht. cbn [In] in Ht. destruct Ht as [E | [E | []]]; injection E as _ <-; tauto. }
-  apply (byte_given_range 0) in Hs; [| lia]. apply (byte_given_range 255) in Hm; [| lia].
+  apply hex_given_range in Hv; [| lia]. apply hex_given_range in Hs; [| lia]. apply hex_given_range in Hm; [| lia].
   split; [| split; [unfold LCPPolicyVersion3; lia | assumption]].
   unfold in_range2, config_spec_policy; p2_fields.
   repeat split; try (unfold u16, u32, byte; lia);
@@ -326,48 +407,20 @@ Proof.
   - unfold u16, AlgSHA1, AlgSHA256, AlgSHA384 in *; lia.
   - unfold u16, AlgSHA1, AlgSHA256, AlgSHA384 in *; lia.
   - repeat constructor; unfold u16; lia.
-  - apply forallb_byteb. reflexivity.
+  - apply forallb_byteb. destruct Ha as [-> | [-> | ->]]; reflexivity.
+  - destruct Ha as [-> | [-> | ->]]; reflexivity.
 Qed.
 
-Lemma config_roundtrip_sha256 sha3 c ver pt sinit maxsinit lpc lah las :
-  config_states c ver AlgSHA256 pt sinit maxsinit lpc lah las ->
+(** SHA1 and SHA256: the policy read back is the generated one *)
+Lemma config_roundtrip sha3 c ver alg pt sinit maxsinit lpc lah las :
+  config_states c ver alg pt sinit maxsinit lpc lah las -> alg <> AlgSHA384 ->
   exists p, load_config c = Ok p /\ parse sha3 (encode2 p) = Ok (inr p).
 Proof.
-  intros H. eexists. split; [apply config_characterised; eassumption|].
-  apply config_spec_in_range in H. destruct H as (Hr & Hv & _).
-  apply parse_encode2. repeat split; try apply Hr; [exact Hv | left; reflexivity].
-Qed.
-
-(* any in-range v3 policy that names SHA1: the parser keeps 20 bytes of PolicyHash *)
-Definition set_hash (p : policy2) (h : list Z) : policy2 :=
-  MkP2 (p2_version p) (p2_hashalg p) (p2_ptype p) (p2_sinit p) (p2_drc p) (p2_pc p) (p2_maxsinit p)
-       (p2_reserved p) (p2_hmask p) (p2_smask p) (p2_res2 p) h.
-
-Lemma parse_encode2_sha1_any sha3 p : in_range2 p -> LCPPolicyVersion3 <= p2_version p ->
-  p2_hashalg p = AlgSHA1 ->
-  parse sha3 (encode2 p) = Ok (inr (set_hash p (firstn 20 (p2_hash p) ++ repeat 0 12))).
-Proof.
-  intros Hr Hv Ha. rewrite parse_encode2_header by assumption.
-  destruct Hr as (_ & _ & _ & _ & _ & _ & _ & _ & _ & _ & _ & _ & Hh & Lh).
-  rewrite <- (firstn_skipn 20 (p2_hash p)) at 1.
-  rewrite (finish2_full sha3 _ _ _ _ _ _ _ _ _ _ _ (firstn 20 (p2_hash p)) (skipn 20 (p2_hash p)) 20);
-    [| rewrite Ha; reflexivity | rewrite firstn_length; lia].
-  rewrite fix_len_pad by (rewrite firstn_length; lia).
-  rewrite firstn_length. replace (32 - Nat.min 20 (Datatypes.length (p2_hash p)))%nat with 12%nat by lia.
-  reflexivity.
-Qed.
-
-(** SHA1 in the config: PolicyHash is 00..1f for every algorithm, the parser returns 00..13 + zeros *)
-Lemma config_roundtrip_sha1 sha3 c ver pt sinit maxsinit lpc lah las :
-  config_states c ver AlgSHA1 pt sinit maxsinit lpc lah las ->
-  exists p q, load_config c = Ok p /\ parse sha3 (encode2 p) = Ok (inr q) /\
-    p2_hash p = seqZ 0 32 /\ p2_hash q = seqZ 0 20 ++ repeat 0 12 /\ q <> p.
-Proof.
-  intros H. eexists. eexists. split; [apply config_characterised; eassumption|].
-  apply config_spec_in_range in H. destruct H as (Hr & Hv & _).
-  split; [apply parse_encode2_sha1_any; [exact Hr | exact Hv | reflexivity]|].
-  unfold config_spec_policy, set_hash; p2_fields.
-  repeat split. intros E. injection E. intros E'. discriminate E'.
+  intros H Hne. eexists. split; [apply config_characterised; eassumption|].
+  apply config_spec_in_range in H. destruct H as (Hr & Hv & Ha).
+  apply parse_encode2. split; [exact Hr | split; [exact Hv|]].
+  unfold config_spec_policy; p2_fields.
+  destruct Ha as [-> | [-> | ->]]; [right; split; reflexivity | left; reflexivity | congruence].
 Qed.
 
 Lemma config_roundtrip_sha384 sha3 c ver pt sinit maxsinit lpc lah las :
@@ -379,67 +432,47 @@ Proof.
   apply parse_encode2_sha384. repeat split; try apply Hr; [exact Hv].
 Qed.
 
-(** * the documented forms of the version that the code refuses *)
+(** * examples: the hypotheses are satisfiable *)
 (* the lcp.json shipped in cmd/core/txt-prov (README.md shows the same with "0x300") *)
 Definition shipped_config : config :=
   MkCfg (bs "0x302") (bs "SHA256") (bs "Any") (bs "0") (bs "ff") [] (bs "SHA256") (bs "RSA2048SHA256").
 
-Lemma config_shipped_refuted : load_config shipped_config = Err E_STRCONV.
-Proof. reflexivity. Qed.
-
-Lemma config_version_0x_always_fails c x t :
-  c_version c = 48 :: x :: t -> (x = 120 \/ x = 88) -> load_config c = Err E_STRCONV.
-Proof.
-  intros E Hx. unfold load_config. rewrite E, parse_hex_0x; [reflexivity|].
-  destruct Hx as [-> | ->]; reflexivity.
-Qed.
-
-Lemma config_version_unset_always_fails c : c_version c = [] -> load_config c = Err E_STRCONV.
-Proof. intros E. unfold load_config. rewrite E. reflexivity. Qed.
-
-(** the same parameters with the version spelled in plain hex are accepted *)
-Definition shipped_config_plain : config :=
-  MkCfg (bs "302") (bs "SHA256") (bs "Any") (bs "0") (bs "ff") [] (bs "SHA256") (bs "RSA2048SHA256").
-
 Ltac hexd := apply hex_denotes_of_fold; [discriminate | reflexivity].
 Ltac incl_names := intros x Hx; unfold cfg_pc_names, cfg_ah_names, cfg_as_names; cbn [In] in Hx |- *; tauto.
-
-Lemma shipped_plain_states :
-  config_states shipped_config_plain 770 AlgSHA256 1 0 255 [] [bs "SHA256"] [bs "RSA2048SHA256"].
-Proof.
-  unfold config_states, shipped_config_plain, name_list. cbn [c_version c_hashalg c_ptype c_sinit c_maxsinit c_pc c_hmask c_smask].
+Ltac states_auto :=
   repeat match goal with |- _ /\ _ => split end; try lia; try reflexivity;
-    try match goal with
-        | |- hex_denotes _ _ => hexd
-        | |- NoDup _ => nodup_names
-        | |- incl _ _ => incl_names
-        end.
+  try match goal with
+      | |- hex_denotes _ _ => hexd
+      | |- NoDup _ => nodup_names
+      | |- incl _ _ => incl_names
+      end.
+
+Lemma shipped_states :
+  config_states shipped_config 770 AlgSHA256 1 0 255 [] [bs "SHA256"] [bs "RSA2048SHA256"].
+Proof.
+  unfold config_states, shipped_config, name_list. cfg_fields. states_auto.
+  - right. split; [| lia]. exists (bs "302"). split; [hexd | right; left; reflexivity].
   - right. left. reflexivity.
   - left. reflexivity.
-  - right. split; [hexd | lia].
-  - right. split; [hexd | lia].
+  - right. split; [| lia]. exists (bs "0"). split; [hexd | left; reflexivity].
+  - right. split; [| lia]. exists (bs "ff"). split; [hexd | left; reflexivity].
 Qed.
 
-(** names in an order that is not the documented one, upper-case hex with leading zeros,
-    keys that are not set *)
+(** names in an order that is not the documented one, upper-case hex with leading zeros and an
+    upper-case prefix, keys that are not set (version: default 0x300), SHA1 *)
 Definition ex_config : config :=
-  MkCfg (bs "0306") (bs "SHA1") (bs "List") (bs "7F") [] (bs "AuxDelete,NPW") (bs "SHA384,SHA1")
+  MkCfg [] (bs "SHA1") (bs "List") (bs "0X007F") [] (bs "AuxDelete,NPW") (bs "SHA384,SHA1")
         (bs "ECDSAP384SHA384,RSA2048SHA1,RSA3072SHA256").
 
 Lemma ex_config_states :
-  config_states ex_config 774 AlgSHA1 0 127 255 [bs "AuxDelete"; bs "NPW"] [bs "SHA384"; bs "SHA1"]
+  config_states ex_config 768 AlgSHA1 0 127 255 [bs "AuxDelete"; bs "NPW"] [bs "SHA384"; bs "SHA1"]
                 [bs "ECDSAP384SHA384"; bs "RSA2048SHA1"; bs "RSA3072SHA256"].
 Proof.
-  unfold config_states, ex_config, name_list. cbn [c_version c_hashalg c_ptype c_sinit c_maxsinit c_pc c_hmask c_smask].
-  repeat match goal with |- _ /\ _ => split end; try lia; try reflexivity;
-    try match goal with
-        | |- hex_denotes _ _ => hexd
-        | |- NoDup _ => nodup_names
-        | |- incl _ _ => incl_names
-        end.
+  unfold config_states, ex_config, name_list. cfg_fields. states_auto.
+  - left. split; reflexivity.
   - left. reflexivity.
   - right. left. reflexivity.
-  - right. split; [hexd | lia].
+  - right. split; [| lia]. exists (bs "007F"). split; [hexd | right; right; reflexivity].
   - left. split; reflexivity.
 Qed.
 
@@ -455,19 +488,3 @@ Lemma config_list_hypotheses_needed :
   (exists p, load_config dup_config = Ok p /\ parse_pc (p2_pc p) = MkPC false false false true) /\
   (exists p, load_config blank_config = Ok p /\ parse_pc (p2_pc p) = MkPC true false false false).
 Proof. split; eexists; split; reflexivity. Qed.
-
-(** closed witnesses *)
-Lemma config_version_form_refuted : exists c,
-  c_version c = bs "0x302" /\ load_config c = Err E_STRCONV /\
-  exists p, load_config shipped_config_plain = Ok p /\ p2_version p = 770.
-Proof.
-  exists shipped_config. split; [reflexivity | split; [reflexivity|]].
-  eexists. split; [apply config_characterised; apply shipped_plain_states | reflexivity].
-Qed.
-
-Lemma config_roundtrip_sha1_refuted : exists c p q,
-  load_config c = Ok p /\ parse false (encode2 p) = Ok (inr q) /\ q <> p.
-Proof.
-  destruct (config_roundtrip_sha1 false _ _ _ _ _ _ _ _ ex_config_states) as (p & q & H1 & H2 & _ & _ & H3).
-  exists ex_config, p, q. tauto.
-Qed.
